@@ -501,6 +501,9 @@ func (o *genericScanCmdOpts) newIPPortGenerator() (reqgen scan.RequestGenerator)
 
 func parsePortRange(portsRange string) (r *scan.PortRange, err error) {
 	ports := strings.Split(portsRange, "-")
+	if len(ports) > 2 {
+		return nil, scan.ErrPortRange
+	}
 	var port uint64
 	if port, err = strconv.ParseUint(ports[0], 10, 16); err != nil {
 		return
@@ -542,7 +545,8 @@ func parseRateLimit(rateLimit string) (rateCount int, rateWindow time.Duration, 
 		return
 	}
 	win := parts[1]
-	if len(win) > 0 && (win[0] < '0' || win[0] > '9') {
+	// "1000/s" is a shorthand for "1000/1s"
+	if len(win) > 0 && !strings.ContainsRune("0123456789.+-", rune(win[0])) {
 		win = "1" + win
 	}
 	if rateWindow, err = time.ParseDuration(win); err != nil || rateWindow < 0 {
